@@ -113,7 +113,7 @@ func (f *frame) fmtExpand(format string, args []ssa.Value, st *State) (string, b
 			if isSl && sortOf(sl.Elem()) == "Int" && st != nil {
 				ea := g.arr(st.heap, elemArrName("Int"), "(Array Int Int)")
 				g.assumeUnder(st.reach, fmt.Sprintf("(= (slen %s) (s-len %s))", n, v.T))
-				g.assumeUnder(st.reach, fmt.Sprintf("(forall ((k Int)) (! (=> (and (<= 0 k) (< k (s-len %[2]s))) (= (sat %[1]s k) (select (select %[3]s (s-arr %[2]s)) (+ (s-off %[2]s) k)))) :pattern ((sat %[1]s k))))", n, v.T, ea))
+				g.assumeUnder(st.reach, fmt.Sprintf("(forall ((k Int)) (! (=> (and (<= 0 k) (< k (s-len %[2]s))) (= (sat %[1]s k) (select (select %[3]s (s-arr %[2]s)) (slot (s-off %[2]s) k)))) :pattern ((sat %[1]s k))))", n, v.T, ea))
 			}
 			res = g.sconcat(res, n)
 		default:
